@@ -17,6 +17,8 @@ GRIDS = {
     'f2w': dict(bbox=(0.0, 0.0, 2048000.0, 1536000.0), res=[4000.0, 2000.0, 1000.0], tile_size=(256, 256), origin='ll'),
     'irr': dict(bbox=(0.0, 0.0, 1000000.0, 700000.0), res=[1000.0, 400.0, 150.0], tile_size=(256, 256), origin='ul'),
     'sqrt2': dict(bbox=(0.0, 0.0, 1024000.0, 1024000.0), res=[4000.0, 2828.42712474619, 2000.0], tile_size=(256, 256), origin='ll'),
+    # level 0: 2x1 tiles of 500; level 1: tiles of 400 (the second one sticks out of its level-0 parent); level 2: tiles of 100
+    'strip': dict(bbox=(0.0, 0.0, 1000.0, 500.0), res=[5.0, 4.0, 1.0], tile_size=(100, 100), origin='ll'),
     'nonsq': dict(bbox=(-50000.0, 20000.0, 462000.0, 276000.0), res=[500.0, 250.0, 125.0], tile_size=(256, 128), origin='ll'),
 }
 
@@ -50,6 +52,24 @@ class TM(object):
         return False
 
 
+def make_coverage(g, G, covm, srs, cfg, cov):
+    """-> (coverage object, list of rectangles whose union it is)"""
+    if cfg.get('shape') == 'L':
+        # model of a polygon coverage (the real GeomCoverage is shapely/GEOS): union of two rectangles that
+        # share the lower left corner; for such an L, "bbox inside the union" is exactly "inside one of them"
+        r1 = (G.bbox[0], G.bbox[1], cov[0], G.bbox[3])
+        r2 = (G.bbox[0], G.bbox[1], G.bbox[2], cov[1])
+
+        class LCoverage(covm.BBOXCoverage):
+            def intersects(self, bbox, srs):
+                return OR(g.bbox_intersects(r1, bbox), g.bbox_intersects(r2, bbox))
+
+            def contains(self, bbox, srs):
+                return OR(g.bbox_contains(r1, bbox), g.bbox_contains(r2, bbox))
+        return LCoverage(tuple(G.bbox), srs), [r1, r2]
+    return covm.BBOXCoverage(tuple(cov), srs), [tuple(cov)]
+
+
 class SeedWalk(Harness):
     modules = ['mapproxy.grid', 'mapproxy.seed.util', 'mapproxy.util.coverage', 'mapproxy.seed.seeder']
     functions = ['TileWalker.walk', 'TileWalker._walk', 'TileWalker._filter_subtiles', 'SeedTask.intersects', 'limit_sub_bbox',
@@ -77,6 +97,28 @@ class SeedWalk(Harness):
         levels = cfg['levels']
         meta = cfg['meta']
         tl = cfg['target_level']
+        if cfg.get('shape') == 'L':
+            # L-shaped coverage anchored at the grid's lower left corner: [0,X1]x[0,H] u [0,W]x[0,Y1]
+            X1, Y1 = real_var('X1'), real_var('Y1')
+            assume(AND(X1 >= G.bbox[0] + 1, X1 <= G.bbox[2], Y1 >= G.bbox[1] + 1, Y1 <= G.bbox[3]))
+            tx, ty = int_var('tx'), int_var('ty')
+            gs = G.grid_sizes[tl]
+            assume(AND(tx >= 0, ty >= 0, tx < gs[0], ty < gs[1]))
+            return dict(cov=[X1, Y1], tx=tx, ty=ty)
+        if cfg.get('cov_box'):
+            # every corner in its own interval (a fixed corner: lo == hi)
+            c = []
+            for n, (lo, hi) in zip(('cx0', 'cy0', 'cx1', 'cy1'), cfg['cov_box']):
+                if lo == hi:
+                    c.append(float(lo))
+                else:
+                    v = real_var(n)
+                    assume(AND(v >= lo, v <= hi))
+                    c.append(v)
+            tx, ty = int_var('tx'), int_var('ty')
+            gs = G.grid_sizes[tl]
+            assume(AND(tx >= 0, ty >= 0, tx < gs[0], ty < gs[1]))
+            return dict(cov=c, tx=tx, ty=ty)
         if cfg.get('lattice'):
             # coverage corners on a coarse lattice: exact in doubles, so a model replays bit-identically
             # (offset 3.5: never exactly on a tile edge or inset boundary, where the relaxed rounding
@@ -101,14 +143,14 @@ class SeedWalk(Harness):
         import itertools
         c = ins['cov']
         for d in (0.37, 3.7, 37.0):
-            for sg in itertools.product((-1, 1), repeat=4):
-                yield dict(ins, cov=[c[i] + sg[i] * d for i in range(4)])
+            for sg in itertools.product((-1, 1), repeat=len(c)):
+                yield dict(ins, cov=[c[i] + sg[i] * d for i in range(len(c))])
 
     @classmethod
     def prop(cls, ctx, cfg, cov, tx, ty):
         g, G, seeder, covm = ctx['g'], ctx['G'], ctx['seeder'], ctx['cov']
         levels, meta, tl = list(cfg['levels']), tuple(cfg['meta']), cfg['target_level']
-        coverage = covm.BBOXCoverage(tuple(cov), ctx['srs'])
+        coverage, rects = make_coverage(g, G, covm, ctx['srs'], cfg, cov)
         tm = TM(g, G, meta)
         task = seeder.SeedTask({'name': 'x', 'cache_name': 'c', 'grid_name': 'g'}, tm, levels, None, False, coverage)
         pool = Pool()
@@ -124,14 +166,14 @@ class SeedWalk(Harness):
         # the 1/10-pixel inset is applied at every traversed level: only parts of the coverage that
         # reach more than `eps` into the meta tile are guaranteed (known finding for smaller overlaps)
         eps = G.resolution(cfg.get('eps_level', 0)) * 0.2
-        inter = AND(mb[0] + eps < cov[2], mb[2] - eps > cov[0], mb[1] + eps < cov[3], mb[3] - eps > cov[1],
-                    cov[2] - cov[0] > eps, cov[3] - cov[1] > eps)
+        inter = OR(*[AND(mb[0] + eps < r[2], mb[2] - eps > r[0], mb[1] + eps < r[3], mb[3] - eps > r[1],
+                         r[2] - r[0] > eps, r[3] - r[1] > eps) for r in rects])
         handed = False
         ok = True
         for t in pool.got:
             ok = AND(ok, t[2] in levels)                 # only selected levels
             tb = MG.meta_tile(t).bbox                     # soundness: meta tile touches the coverage
-            touch = AND(tb[0] <= cov[2], tb[2] >= cov[0], tb[1] <= cov[3], tb[3] >= cov[1])
+            touch = OR(*[AND(tb[0] <= r[2], tb[2] >= r[0], tb[1] <= r[3], tb[3] >= r[1]) for r in rects])
             if cfg.get('skip_geoms', 0) == 0:
                 ok = AND(ok, touch)
             m2 = MG.main_tile(t)
@@ -261,9 +303,18 @@ def obligations(tier, seed):
     if tier != 'thorough':
         cfgs.append(dict(grid='f2', levels=[0, 2], meta=[2, 2], target_level=2))
         cfgs.append(dict(grid='f2', levels=[0, 1, 2], meta=[2, 2], target_level=2, width=1.2))
+    # a coverage that contains a whole coarse tile whose child sticks out of it (irregular pyramid), two levels below
+    cfgs.append(dict(grid='strip', levels=[0, 1, 2], meta=[1, 1], target_level=2, cov_box=[[0, 0], [0, 0], [380, 720], [500, 500]], tag='wide'))
+    cfgs.append(dict(grid='strip', levels=[1, 2], meta=[1, 1], target_level=2, cov_box=[[0, 120], [0, 0], [380, 720], [500, 500]], tag='wide2'))
+    # polygon (L-shaped) coverage: a contained tile is followed by a sibling that only intersects
+    cfgs.append(dict(grid='f2', levels=[1, 2], meta=[1, 1], target_level=2, shape='L', tag='L'))
+    if tier == 'thorough':
+        cfgs.append(dict(grid='f2', levels=[0, 1, 2], meta=[2, 2], target_level=2, shape='L', tag='L'))
+        cfgs.append(dict(grid='nonsq', levels=[1, 2], meta=[1, 1], target_level=2, shape='L', tag='L'))
+        cfgs.append(dict(grid='sqrt2', levels=[0, 1, 2], meta=[1, 1], target_level=2, shape='L', tag='L'))
     for c in cfgs:
-        name = 'seed-walk/%s/L%s/m%dx%d%s/w%s' % (c['grid'], '-'.join(map(str, c['levels'])), c['meta'][0], c['meta'][1],
-                                                   '/skipgeoms' if c.get('skip_geoms') else '', c.get('width', 1.5))
+        name = 'seed-walk/%s/L%s/m%dx%d%s/%s' % (c['grid'], '-'.join(map(str, c['levels'])), c['meta'][0], c['meta'][1],
+                                                  '/skipgeoms' if c.get('skip_geoms') else '', c.get('tag') or 'w%s' % c.get('width', 1.5))
         specs.append(spec(MOD, 'SeedWalk', name, cfg=c, cost=60 * len(c['levels']) ** 2))
     # known finding: overlaps smaller than 0.1 px of a coarse level are pruned with their whole subtree
     specs.append(spec(MOD, 'SeedWalk', 'seed-walk-coarse-inset/f2w/L0-1-2/m1x1', kind='finding', finding_key='C11-coarse-level-inset',
